@@ -177,8 +177,8 @@ func postStart(r *sysinject.Result) (idx []int, ok bool) {
 
 func workers() int {
 	n := runtime.NumCPU()
-	if n > 12 {
-		n = 12
+	if n > 8 {
+		n = 8
 	}
 	if n < 2 {
 		n = 2
